@@ -405,7 +405,7 @@ def observe_file(program, enc_path, pw, wrong_pws, ref_path, ref2_path):
            "plain_sha": "", "plain_len": 0, "ref_sha": "", "ref_len": 0, "ref2_sha": "", "ref2_len": 0,
            "parts_ok": False, "units": utf16_units(pw),
            "nonces": {"keySalt": "", "pkgSalt": "", "pkgKey": "", "verIn": "", "hmacKey": ""}, "wrong": [],
-           "spin": 0}
+           "spin": 0, "streams": []}
     try:
         ref = open(ref_path, "rb").read()
         ref2 = open(ref2_path, "rb").read()
@@ -422,6 +422,7 @@ def observe_file(program, enc_path, pw, wrong_pws, ref_path, ref2_path):
             streams = cfb.read_cfb(data)
         except cfb.CfbError as e:
             raise Malformed("compound file: " + str(e))
+        obs["streams"] = sorted(ascii(k)[1:-1] for k in streams)      # informational (not judged)
         if "EncryptionInfo" not in streams or "EncryptedPackage" not in streams:
             raise Malformed("streams EncryptionInfo / EncryptedPackage missing; found " + ",".join(sorted(streams)))
         fields, params, hashes = parse_encryption_info(streams["EncryptionInfo"])
@@ -447,8 +448,8 @@ def observe_file(program, enc_path, pw, wrong_pws, ref_path, ref2_path):
         if obs["ref_sha"] == obs["ref2_sha"]:
             obs["parts_ok"] = plain == ref
         else:
-            # the library's save is not pure (known from C12): the reference taken before and after
-            # differ; compare every part that is the same in both references
+            # the save was not pure (cf. C12): the references taken before and after differ;
+            # compare every part that is the same in both references
             zp, z1, z2 = _zip_parts(plain), _zip_parts(ref), _zip_parts(ref2)
             obs["parts_ok"] = bool(zp and z1 and z2 and zp[0] == z1[0] == z2[0] and
                                    all(zp[1][n] == z1[1][n] for n in z1[0] if z1[1][n] == z2[1][n]))
